@@ -55,11 +55,21 @@ func funcArrayLen(ctx *Context, this *VMValue, params []*VMValue) *VMValue {
 	return NewIntVal(IntType(len(arr.List)))
 }
 
+// ctxRand 返回以当前上下文的随机源(未设置种子时为全局随机源)为基础的随机数生成器
+func ctxRand(ctx *Context) *rand.Rand {
+	src := randSource
+	if ctx != nil && ctx.RandSrc != nil {
+		src = ctx.RandSrc
+	}
+	return rand.New(src)
+}
+
 func funcArrayShuttle(ctx *Context, this *VMValue, params []*VMValue) *VMValue {
 	arr, _ := this.ReadArray()
 	lst := arr.List
+	rnd := ctxRand(ctx)
 	for i := len(lst) - 1; i > 0; i-- { // Fisher–Yates shuffle
-		j := rand.Intn(i + 1)
+		j := rnd.Intn(i + 1)
 		lst[i], lst[j] = lst[j], lst[i]
 	}
 	return this
@@ -67,7 +77,7 @@ func funcArrayShuttle(ctx *Context, this *VMValue, params []*VMValue) *VMValue {
 
 func funcArrayRand(ctx *Context, this *VMValue, params []*VMValue) *VMValue {
 	arr, _ := this.ReadArray()
-	return arr.List[rand.Intn(len(arr.List))]
+	return arr.List[ctxRand(ctx).Intn(len(arr.List))]
 }
 
 func funcArrayRandSize(ctx *Context, this *VMValue, params []*VMValue) *VMValue {
